@@ -16,6 +16,10 @@ WHOLE_NOTE = ("Sampling, not enumeration: a clean batch is evidence, not proof. 
               "UDP-multicast transport is outside the simulation.")
 
 CHECKS = {
+ "C14": dict(
+  text="Receiver-over-lossy-link simulation: an ordered source (seeded start sequence number, every wrap position over a batch) feeds the real rtpreceiver.Receiver (reliable and unreliable mode, buffer sizes 1..512) through a simulated link whose explicit, seeded schedule drops, burst-drops, duplicates, delays (bounded displacement) and pauses packets and restarts the sender; the receiver's report ticker runs on the fake clock. Oracles written from the statement: strictly increasing delivery modulo 2^16 without duplicates except across a detected restart, delivery of packets displaced by less than the buffer size, lost == skipped sequence numbers, Stats() and every captured receiver report (extended highest sequence number, cumulative and interval fraction lost) against the delivery history, restart followed within buffer size + 1 packets.",
+  note="Real: pkg/rtpreceiver. Simulated: the link (arrival history), the clock. The displacement clause is asserted for pure displacement only (no unresolved older loss when the packet is first overtaken); BufferSize+1 consecutive stale arrivals count as a detected restart (the statement's own restart clause).",
+  tech="deterministic simulation: seeded arrival-history search on a fake clock, reference-model oracle", ref="3.9"),
  "C15": dict(
   text="Sender->link->receiver simulation on the fake clock: writer tracks with exact 64-bit tick indices (seeded clock rates incl. arbitrary ones, initial timestamps, forward/backward/huge steps crossing 2^32 repeatedly), real rtpsender.Sender (reports on its ticker), a link giving packets and reports independent delays (all interleavings), real rtpreceiver.Receiver and rtptime.GlobalDecoder, wall-clock offsets from 1970 to 2036; oracles: PTS differences equal the exact accumulated signed 32-bit steps, later tracks land on the leading timeline, PacketNTP within one tick + NTP rounding of the writer's instant (math/big reference), ntp.Decode(ntp.Encode(t)) within 1 ns.",
   note="Real: pkg/rtptime, pkg/ntp, pkg/rtpsender, pkg/rtpreceiver. Simulated: clock (testing/synctest), link delays. The late-track clause has no tolerance in the statement; the oracle allows 2 ticks of the new track + 1 tick of the leading clock.",
@@ -49,6 +53,9 @@ CHECKS = {
  "C13": dict(
   text="Whole-system deterministic simulation with Server.Close, ServerStream.Close and Client.Close (from another goroutine) landing at seeded instants between any two protocol steps - idle, mid-handshake, playing, recording, paused, with a writer running, with peers that stopped reading (bounded window) or vanished - and seeded holds at ~40 yield sites on the shutdown paths; oracles: Close latency in simulated time, socket census of the closed object's node, goroutines attributed to the closed object (creator chains) and a complete end-of-run census, open/close notification balance and no packet/request callback after OnSessionClose (global sequence numbers).",
   note=WHOLE_NOTE, tech="deterministic simulation with fault injection: close-point and shutdown-interleaving search, census + callback-history oracle", ref="3.8"),
+ "C19": dict(
+  text="Whole-system deterministic simulation with a spoofing node and intruding control connections: sessions over UDP (reading client, recording client) and TCP; the spoofer forges perfectly valid RTP for the session and RTCP sender reports from another IP, another IP with the negotiated port, the negotiated IP with another port and IPv4-mapped forms, towards the client's and the server's media ports, with AnyPortEnable on and off and sources reported in 4- or 16-byte form; oracles: no forged packet reaches a packet callback, the session's inbound byte counter equals the bytes that arrived from the negotiated peer (wire tap), a legitimate peer that vanishes silently is expired on time although forged traffic keeps flowing; foreign control requests with the stolen session id (7 methods, set-up / streaming / paused states) from another IP - and from the same IP on another connection while the session streams interleaved - get an error status and leave state, medias and liveness of the session untouched.",
+  note=WHOLE_NOTE, tech="deterministic simulation with fault injection: forged-source datagrams and stolen-session requests, callback/statistics/timeout oracle", ref="3.14"),
  "C18": dict(
   text="Whole-system deterministic simulation with wire taps: server and per-client MaxPacketSize from 32 to 1472 (and default), plain and RTSPS+SRTP (incl. client-managed keys with MKI), UDP and interleaved, packets swept around the limit (header + CSRC + extension + payload + padding; single and compound RTCP) through ServerStream, ServerSession and Client write entry points; every UDP datagram and interleaved-frame payload leaving a library endpoint (automatic reports and firewall-opening packets included) is measured against that endpoint's maximum, an oversize write must return an error and put nothing on the wire, and Start() must reject MaxPacketSize > 1472 and write-queue sizes that are not powers of two.",
   note=WHOLE_NOTE + " The multicast writer entry point and the HTTP/WebSocket tunnels are excluded; maxima below 32 are treated as degenerate.",
